@@ -146,7 +146,7 @@ type h265Desc struct {
 	PHES           []byte
 }
 
-func b2i(b bool, v int) int {
+func h265B2i(b bool, v int) int {
 	if b {
 		return v
 	}
@@ -176,11 +176,11 @@ func (d *h265Desc) encode() []byte {
 			out = append(out, u.Nal...)
 		}
 	case "fu":
-		out = append(out, byte(b2i(d.S, 128)+b2i(d.E, 64)+d.FuType))
+		out = append(out, byte(h265B2i(d.S, 128)+h265B2i(d.E, 64)+d.FuType))
 		donl()
 		out = append(out, d.Payload...)
 	case "paci":
-		w := b2i(d.A, 32768) + d.CType*512 + d.PHS*16 + b2i(d.F0, 8) + b2i(d.F1, 4) + b2i(d.F2, 2) + b2i(d.Y, 1)
+		w := h265B2i(d.A, 32768) + d.CType*512 + d.PHS*16 + h265B2i(d.F0, 8) + h265B2i(d.F1, 4) + h265B2i(d.F2, 2) + h265B2i(d.Y, 1)
 		out = append(out, h265U16(w)...)
 		out = append(out, d.PHES...)
 		out = append(out, d.Payload...)
